@@ -23,8 +23,8 @@ CLAIMED = {
              text="Every conjunct of the registration rule (opcert signed by the cold key, key signed by that opcert's KES key within one period, proof of possession, pool id derived from the cold key and present in the stake distribution, key not already registered, stake taken from the distribution) is a postcondition proved on the extracted text in both crates.",
              note="Ed25519, Sum6KES and BLS PoP assumed sound; pool-id hashing/bech32 and std maps/sets are contracts; default feature set only; aggregator-side async services not under contract.", ref="§4 C07"),
  "C08": dict(cat="proof", tech="Kani loop-free harness (phi_f = 1) + " + VX + " (signer and verifier loops against one lottery predicate)",
-             text="PARTIAL: 'always won when phi_f is 1' for all 2^512 draws, 'always lost for zero stake' for all draws, totals and phi_f != 1 (the real taylor_comparison loop with exact rational arithmetic, any iteration bound), and 'signer and verifier decide identically' (the signer proposes exactly the indices the verifier accepts, on the same operands).",
-             note="Exactness against the real-valued threshold, monotonicity in stake / draw and the negligible band are NOT decided (f64::ln, Taylor remainder analysis).", ref="§4 C08"),
+             text="PARTIAL: 'always won when phi_f is 1' for all 2^512 draws, 'always lost for zero stake' and 'a smaller draw value never turns won into lost' for all draws, stakes, totals and phi_f (the real taylor_comparison loop with exact rational arithmetic, any iteration bound; the monotonicity unit is advisory on changed code), and 'signer and verifier decide identically' (the signer proposes exactly the indices the verifier accepts, on the same operands).",
+             note="Exactness against the real-valued threshold, monotonicity in the stake and the negligible band are NOT decided (f64::ln, Taylor remainder analysis).", ref="§4 C08"),
  "C09": dict(cat="proof", tech=VX + " (heap-index algebra, unbounded) + " + KV + " at an ideal hash (bounded tree size)",
              text="Heap-index laws of the signer-registration Merkle tree proved without bound; generate/verify completeness and soundness of the real generic tree code checked at an ideal (collision-free) hash for every tree up to the bound, every selection and every proof value.",
              note="PARTIAL: the STM tree only; tree size bounded; the generic Merkle tree / map delegate to ckb-merkle-mountain-range (external): not under contract.", ref="§4 C09"),
